@@ -78,6 +78,12 @@ def run(ctx):
             ctx.fail("level-hash-differs", "per-level hashes differ from the specification", {"dag": d})
         if f["gd"].replace("ok:", "") != sp["gd"]:
             ctx.fail("level-depth-differs", "per-level depths differ from the specification", {"dag": d})
+        # C01's clause at the seam with C02: "the explicitly recomputed representation hash agrees with the cached one",
+        # here for cells of non-zero level (the representation hash is the hash at the highest level)
+        if f["repr"] != "ok:" + sp["gh"].split(",")[3]:
+            ctx.fail("recomputed-representation-hash-disagrees-nonzero-level" if f["mask"] != "0" else
+                     "recomputed-representation-hash-disagrees",
+                     f"calculate_representation_hash -> {f['repr'][:40]}, level-3 hash {sp['gh'].split(',')[3][:16]}", {"dag": d})
     ctx.extra["oracle_valid_cases"] = nvalid
 
     # parse: BoC round trip keeps type, mask and all per-level hashes
